@@ -4,6 +4,7 @@ CONSTANTS
   MaxSpurious = 1
   FORWARD_WAKER = TRUE
   READY_DRAINS = FALSE
+  FILTER_MODE = "none"
 INVARIANTS DoneInv
 
 CHECK_DEADLOCK FALSE
